@@ -36,7 +36,7 @@ def workdir(pid):
     return d
 
 
-def spec(entry, pkg=WIRE_PKG, overlay='harness/wire', interp=None, init=None, params=None, deadline='15m',
+def spec(entry, pkg=WIRE_PKG, overlay='harness/wire', interp=None, init=None, params=None, deadline='45m',
          max_steps=None, max_paths=None, label=None, extra_overlay=None, replayable=True, solver='z3', overlay2=None):
     return dict(entry=entry, pkg=pkg, overlay=overlay, overlay2=overlay2 or [], interp=interp if interp is not None else DEFAULT_INTERP,
                 init=init or [], params=params or {}, deadline=deadline, max_steps=max_steps, max_paths=max_paths,
